@@ -91,6 +91,7 @@ type env struct {
 	dir2    *direct.Direct
 	mu      sync.Mutex
 	burstOn bool
+	burstDone int // requests of the running burst that the real handler has answered
 	burst   []burstReq
 	lastQ   url.Values
 	lastRaw string
@@ -167,8 +168,14 @@ func setup() *env {
 		e.lastQ = r.URL.Query()
 		e.lastRaw = r.URL.RawQuery
 		e.lastCT = r.Header.Get("Content-Type")
+		burst := e.burstOn
 		e.mu.Unlock()
 		mux.ServeHTTP(w, r)
+		if burst { // the request has been answered: whatever it stores is stored
+			e.mu.Lock()
+			e.burstDone++
+			e.mu.Unlock()
+		}
 	})
 	e.ts = httptest.NewServer(e.handler)
 	e.rem, err = remote.New(remote.RemoteConfig{UpstreamAddress: e.ts.URL, UpstreamThreads: 1,
@@ -246,7 +253,7 @@ func (e *env) runBurst(base string, b *BurstIn) (string, string, []string) {
 		panic(err)
 	}
 	e.mu.Lock()
-	e.burst, e.burstOn = nil, true
+	e.burst, e.burstOn, e.burstDone = nil, true, 0
 	e.mu.Unlock()
 	items := make([]string, len(b.Jobs))
 	var names []string
@@ -263,10 +270,10 @@ func (e *env) runBurst(base string, b *BurstIn) (string, string, []string) {
 			"; j_spy := " + lib.Bytes([]byte(bj.Meta.Spy)) + "; j_rate := " + lib.N(uint64(bj.Meta.Rate)) + "; j_units := " + lib.Bytes([]byte(bj.Meta.Units)) +
 			"; j_aggregation := " + lib.Bytes([]byte(bj.Meta.Agg)) + " |}, " + lib.Pair(lib.Bytes(bj.Stack), lib.N(bj.V)) + ")"
 	}
-	deadline := time.Now().Add(15 * time.Second)
+	deadline := time.Now().Add(60 * time.Second)
 	for time.Now().Before(deadline) {
 		e.mu.Lock()
-		n := len(e.burst)
+		n := e.burstDone // answered, not merely received: the stored keys are read right after this loop
 		e.mu.Unlock()
 		if n >= len(b.Jobs) {
 			break
